@@ -49,6 +49,7 @@ type history struct {
 	Yields  int64      `json:"yields"`
 	Hung    bool       `json:"hung,omitempty"`
 	Hits    []string   `json:"hits,omitempty"`
+	Deps    *depsResult `json:"deps,omitempty"` // kind "ixdeps": the verdict of the dependent-blob oracle
 }
 
 // world precomputes the sorted order of the pool.
